@@ -95,6 +95,10 @@ def check_spec(m, cwd, frm, imp, res, esm):
         return 'panic: ' + val
     if F is None or I is None:
         return None if kind == 'err' else 'a path climbs above the root but the result is not an error'
+    # the imported path must name a file: its last component is a normal name (not `.`/`..`, not empty)
+    _, raw = comps(m, imp)
+    if not raw or raw[-1] == 'PARENT' or not I:
+        return None if kind != 'panic' else 'panic: ' + val
     if kind == 'err':
         return 'both paths are valid but the result is an error'
     D = F[:-1]
@@ -111,8 +115,10 @@ def check_spec(m, cwd, frm, imp, res, esm):
     if not ((len(s) >= 2 and is_c(m, s[0], DOT) and is_c(m, s[1], SLASH)) or
             (len(s) >= 3 and is_c(m, s[0], DOT) and is_c(m, s[1], DOT) and is_c(m, s[2], SLASH))):
         return 'specifier does not start with ./ or ../'
-    # resolve the module name s + ".ts" against D
-    _, sc = comps(m, s + [ord(x) for x in '.ts'])
+    # resolve the module name against D: s + ".ts" when the imported file carries the extension, s itself otherwise (a file without
+    # the .ts extension is imported verbatim -- nothing is stripped)
+    has_ts = bool(I) and ends_with(m, I[-1], '.ts')
+    _, sc = comps(m, s + ([ord(x) for x in '.ts'] if has_ts else []))
     stack = list(D)
     for c in sc:
         if c == 'PARENT':
@@ -138,7 +144,8 @@ def run_import_path(m, cfg, frm, imp):
 
 
 def explore(item):
-    cfg, cwd, base_f, nf, base_i, ni = item
+    cfg, cwd, base_f, nf, base_i, ni = item[:6]
+    suffix = item[6] if len(item) > 6 else '.ts'
     esm = cfg == 'esm'
     fs = [z3.BitVec(f'f{i}', CH) for i in range(nf)]
     isy = [z3.BitVec(f'i{i}', CH) for i in range(ni)]
@@ -146,7 +153,7 @@ def explore(item):
     for c in fs + isy:
         ex.solver.add(z3.Or([c == z3.BitVecVal(ord(x), CH) for x in ALPHA]))
     frm = [ord(c) for c in base_f] + fs + [ord(c) for c in '.ts']
-    imp = [ord(c) for c in base_i] + isy + [ord(c) for c in '.ts']
+    imp = [ord(c) for c in base_i] + isy + [ord(c) for c in suffix]
     cwdc = [ord(c) for c in cwd]
     out = {'violations': [], 'samples': [], 'obligations': 0, 'discharged': 0, 'models': set(), 'inconclusive': []}
 
@@ -269,10 +276,12 @@ def main():
                         if quick and nf not in (1, 2, 3, 4):
                             continue
                         items.append((cfg, cwd, bf, nf, bi, ni))
-    rep.bounds = {'alphabet_of_symbolic_bytes': ALPHA, 'from': '<base><nf symbolic bytes>.ts', 'import': '<base><ni symbolic bytes>.ts',
+                        if (bf, bi) in (('', ''), ('o/', 'o/'), ('', '../')) and nf <= 2:
+                            items.append((cfg, cwd, bf, nf, bi, min(ni, 4 if quick else 5), ''))      # imported file without the .ts suffix
+    rep.bounds = {'alphabet_of_symbolic_bytes': ALPHA, 'from': '<base><nf symbolic bytes>.ts', 'import': '<base><ni symbolic bytes>.ts, and for some cells <base><ni symbolic bytes> (file name without forced extension)',
                   'nf_plus_ni': total, 'bases': bases, 'cwd': cwds, 'cells': len(items)}
     rep.outside += ['Windows separators (cfg!(target_os) is constant-folded on this target)', 'symlinks', 'non-UTF-8 paths',
-                    'paths whose file name does not end in .ts', 'longer symbolic parts / other alphabets',
+                    'importing files whose name does not end in .ts', 'imported paths that do not name a file (ending in `.`, `..`)', 'longer symbolic parts / other alphabets',
                     'import path that is an ancestor directory of the importing file (impossible on a file system)']
     rep.assumptions += ['std::path models (components, join/push, parent, to_string_lossy) are faithful: validated against the native build',
                         'std::env::current_dir() returns the modelled cwd']
